@@ -170,6 +170,7 @@ def main():
     if not a.no_proof:
         for c in mine:
             v = Verifier(R, prop)
+            R.carrier_prop = c.prop
             for k_, val in c.options.items():
                 setattr(v, k_, val)
             try:
